@@ -692,6 +692,13 @@ func (w *world) genServiceEntries() {
 func (w *world) genGateways() {
 	r := w.r
 	n := 2 + r.Intn(3)
+	// A quarter of the worlds are gateway-dense and carry Gateways WITHOUT a creationTimestamp next to dated ones, as the
+	// Ingress controller synthesizes them (pilot/pkg/config/kube/ingress: the Gateway of an Ingress has no timestamp).
+	synth := chance(r, 25)
+	if synth {
+		n = 4 + r.Intn(2)
+		w.shape("gateway:without-creation-timestamp")
+	}
 	type claim struct {
 		port uint32
 		host string
@@ -705,6 +712,12 @@ func (w *world) genGateways() {
 			g.Selector = map[string]string{"istio": "other"}
 		}
 		t := w.ts()
+		if synth {
+			t = baseTime.Add(time.Duration(r.Intn(6)) * time.Second)
+			if i == 0 || chance(r, 30) {
+				t = time.Time{}
+			}
+		}
 		ns2 := 1 + r.Intn(3)
 		for s := 0; s < ns2; s++ {
 			srv := &networking.Server{}
